@@ -199,3 +199,42 @@ Theorem C03_anyof_negative_refuted : exists bs i v d k,
   In (i, (Some v, d, k)) (anyof_negative_numbers bs []) /\ existsb (fun b => conforms b v) bs = true.
 Proof. exists [[KMinimum 5]; [KMaximum 10]], O, (PInt 4), NSmaller, (KMinimum 5). exact anyof_negative_refuted. Qed.
 Print Assumptions C03_anyof_negative_refuted.
+
+(* ---- object / array wrappers (_negative_properties, _negative_pattern_properties, _negative_items,
+   _negative_required, additionalProperties: false), for every context, every key order and all
+   sub-schemas whose own generator respects the requested modes: whatever they yield as NegativeValue
+   wraps a NEGATIVE value of the sub-schema or is a structural violation; nothing is yielded unless
+   NEGATIVE is requested.  Labels of sub-values are never flipped. ---- *)
+Theorem C03_object_wrappers_keep_labels : forall c keys it,
+  forallb key_respects_modes keys = true ->
+  In it (object_negatives c keys) ->
+  snd c = true /\ oi_label it = Neg /\ (oi_sub it = Some Neg \/ oi_sub it = None).
+Proof. exact object_wrappers_keep_labels. Qed.
+Print Assumptions C03_object_wrappers_keep_labels.
+
+(* the statement is about the context switch: iterating the sub-schema with the caller's context
+   (both modes) wraps a positive sub-value as negative; and the theorem is not vacuous (8 items) *)
+Theorem C03_object_wrappers_need_negative_context :
+  In {| oi_label := Neg; oi_via := WPatternProperty 0; oi_sub := Some Pos |} (wrap_all_callers_ctx (true, true) WPatternProperty [sub_string])
+  /\ sub_respects_modes sub_string = true
+  /\ length (object_negatives (true, true) [OKProperties [sub_string]; OKPatternProperties [sub_string]; OKRequired 1; OKAdditionalFalse]) = 8%nat.
+Proof. exact callers_ctx_flips_labels. Qed.
+Print Assumptions C03_object_wrappers_need_negative_context.
+
+(* ---- _positive_object: the objects built by dropping optional properties keep at least
+   minProperties properties when the required ones alone suffice ... ---- *)
+Theorem C03_object_subset_sizes_partial : forall r o minp d n,
+  (minp <= r)%nat -> In (d, n) (object_subset_sizes r o) -> (minp <= n)%nat.
+Proof. exact object_subset_sizes_partial. Qed.
+Print Assumptions C03_object_subset_sizes_partial.
+
+(* F8: ... and not otherwise: minProperties is never consulted *)
+Theorem C03_object_subset_sizes_refuted : exists r o minp d n,
+  In (d, n) (object_subset_sizes r o) /\ (n < minp)%nat.
+Proof. exists 0%nat, 2%nat, 1%nat, OOnlyRequired, 0%nat. exact object_subset_sizes_refuted. Qed.
+Print Assumptions C03_object_subset_sizes_refuted.
+
+Theorem C03_object_subset_sizes_nonvacuous :
+  object_subset_sizes 1 3 = [(OOneOptional, 2%nat); (OOneOptional, 2%nat); (OOneOptional, 2%nat); (OSubset, 3%nat); (OOnlyRequired, 1%nat)].
+Proof. exact object_subset_sizes_nonvacuous. Qed.
+Print Assumptions C03_object_subset_sizes_nonvacuous.
